@@ -34,6 +34,10 @@ func isFloatText(s string) bool {
 
 // toExpr assembles an xjs expression from a generated tree the way a plugin
 // would: public struct fields, token types set, no positions, no grouping nodes.
+// assembledBins, when non-nil (C03's edit-after-print cases only; single goroutine), records which ast nodes were
+// assembled for which generated binary node, so that the same operator edit can be made on both trees.
+var assembledBins map[*gen.Node][]*ast.BinaryExpression
+
 func toExpr(n *gen.Node) ast.Expression {
 	switch n.K {
 	case gen.KIdent:
@@ -81,7 +85,11 @@ func toExpr(n *gen.Node) ast.Expression {
 	case gen.KPost:
 		return &ast.PostfixExpression{Token: tk(opTypes[n.Op], n.Op), Operator: n.Op, Left: toExpr(n.Kids[0])}
 	case gen.KBin:
-		return &ast.BinaryExpression{Token: tk(opTypes[n.Op], n.Op), Operator: n.Op, Left: toExpr(n.Kids[0]), Right: toExpr(n.Kids[1])}
+		b := &ast.BinaryExpression{Token: tk(opTypes[n.Op], n.Op), Operator: n.Op, Left: toExpr(n.Kids[0]), Right: toExpr(n.Kids[1])}
+		if assembledBins != nil {
+			assembledBins[n] = append(assembledBins[n], b)
+		}
+		return b
 	case gen.KAsg:
 		if n.Op == "=" {
 			return &ast.AssignmentExpression{Token: tk(token.ASSIGN, "="), Left: toExpr(n.Kids[0]), Value: toExpr(n.Kids[1])}
